@@ -924,9 +924,54 @@ fn resolve_ids<R: Reader<Offset = usize>>(lines: Vec<String>, dwarf: &gimli::Dwa
         .collect()
 }
 
+/// Thread-safety markers, observed at run time: the inherent method exists only when the bound holds, otherwise
+/// method resolution falls back to the trait's default.
+struct SendProbe<T>(std::marker::PhantomData<T>);
+struct SyncProbe<T>(std::marker::PhantomData<T>);
+trait SendFallback {
+    fn yes(&self) -> bool {
+        false
+    }
+}
+impl<T> SendFallback for SendProbe<T> {}
+impl<T> SendFallback for SyncProbe<T> {}
+impl<T: Send> SendProbe<T> {
+    fn yes(&self) -> bool {
+        true
+    }
+}
+impl<T: Sync> SyncProbe<T> {
+    fn yes(&self) -> bool {
+        true
+    }
+}
+
+/// A reader over an `Rc` buffer must stay on its thread (its clones share a non-atomic reference count); readers over
+/// borrowed and `Arc` buffers may cross threads. Memory safety of the shared-buffer reader depends on these markers.
+fn check_thread_markers() -> R {
+    macro_rules! marks {
+        ($t:ty) => {
+            (SendProbe::<$t>(std::marker::PhantomData).yes(), SyncProbe::<$t>(std::marker::PhantomData).yes())
+        };
+    }
+    type RcR = EndianReader<RunTimeEndian, Rc<[u8]>>;
+    type ArcR = EndianReader<RunTimeEndian, Arc<[u8]>>;
+    type SliceR = EndianSlice<'static, RunTimeEndian>;
+    ensure_eq!(marks!(u32), (true, true), "c10/harness/marker-probe");
+    ensure_eq!(marks!(Rc<u8>), (false, false), "c10/harness/marker-probe");
+    ensure_eq!(marks!(RcR), (false, false), "c10/thread-safety/rc-reader", "(Send, Sync) of EndianRcSlice");
+    ensure_eq!(marks!(gimli::Dwarf<RcR>), (false, false), "c10/thread-safety/rc-dwarf", "(Send, Sync) of Dwarf<EndianRcSlice>");
+    ensure_eq!(marks!(gimli::Expression<RcR>), (false, false), "c10/thread-safety/rc-expression", "(Send, Sync) of Expression<EndianRcSlice>");
+    ensure_eq!(marks!(RelocateReader<RcR, Identity>), (false, false), "c10/thread-safety/rc-relocate-reader");
+    ensure_eq!(marks!(ArcR), (true, true), "c10/thread-safety/arc-reader", "(Send, Sync) of EndianArcSlice");
+    ensure_eq!(marks!(SliceR), (true, true), "c10/thread-safety/slice-reader");
+    Ok(())
+}
+
 fn check_sections(ch: &mut Choices, cx: &mut Ctx) -> R {
     use crate::fullasm::{assemble, gen_fdwarf, GenOpts};
     cx.label("mode:sections");
+    check_thread_markers()?;
     let d = gen_fdwarf(ch, &GenOpts { max_units: 2, max_dies: 6, lines: true, bad_refs: 0, split: false });
     let mut map = assemble(&d).sections;
     // now and then a section cut short or damaged, so that error paths (which empty the reader) are compared too
